@@ -260,6 +260,12 @@ def check(ctx):
     ng = core.adopt(ctx, c06, lambda o: o["rule"] in ("C06.b", "C06.f") or (o["rule"] == "C06.e" and ("token-lists" in o["key"] or "one-entry-per" in o["key"] or "built-from-bundle" in o["key"] or "token-matches" in o["key"])), "C07.g")
     ctx.floor("C07.g", ng, 30, "shared revoke-exactness obligations (C06.b/e/f)")
 
+    # a reactor whose trigger can never fire must not keep a handle (registered for a dead entity => never collected);
+    # shared with C08.c
+    import c08
+    n8 = core.adopt(ctx, c08, lambda o: o["rule"] == "C08.c" and any(k in o["key"] for k in ("registers-only-live-entity", "consumes-registration", "tracker-not-replaced", "one-entity")), "C07.g")
+    ctx.floor("C07.g", n8, 3, "shared despawn-registration obligations (C08.c)")
+
     # ---- C07.f who may despawn ----
     sites = despawn_sites(prog)
     # conditional rule (IF the framework despawns THEN only these provenances): the floor only guards against the site
